@@ -29,6 +29,7 @@ import (
 	"context"
 	"errors"
 	"fmt"
+	"io"
 	"net"
 	"os"
 	"sort"
@@ -50,6 +51,21 @@ type Input struct {
 	L     int64  `json:"L"`               // TCPConfig.ReadLimit (0: the default, 8 MiB)
 	Sizes []int  `json:"sizes"`           // encoded sizes (incl. trailing newline) of the envelopes of the stream
 	RPlan string `json:"rplan,omitempty"` // delivery plan (pconn syntax; "d1*N" = N one-byte reads)
+	Trace bool   `json:"trace,omitempty"` // TCPConfig.TraceWriter set (envelopes are copied to a trace sink)
+}
+
+// discardTrace is a TraceWriter whose sinks throw everything away.
+type discardTrace struct{ s, r io.Writer }
+
+func (d *discardTrace) SendWriter() *io.Writer    { return &d.s }
+func (d *discardTrace) ReceiveWriter() *io.Writer { return &d.r }
+
+func tcpConfig(L int64, trace bool) *lime.TCPConfig {
+	cfg := &lime.TCPConfig{ReadLimit: L}
+	if trace {
+		cfg.TraceWriter = &discardTrace{io.Discard, io.Discard}
+	}
+	return cfg
 }
 
 type failure struct {
@@ -162,8 +178,9 @@ func item(size int) *pconn.Item {
 }
 
 type worker struct {
-	rc  *pconn.Conn
-	key []byte
+	rc    *pconn.Conn
+	key   []byte
+	trace bool
 }
 
 func (w *worker) eval(L int64, sizes []int, plan pconn.Plan, planName string, nontrivial bool) {
@@ -219,8 +236,8 @@ func (w *worker) check(L int64, sizes []int, its []*pconn.Item, wire []byte, pla
 			pos = "later"
 		}
 		return &failure{clause: clause, pos: pos, scope: scope,
-			msg:  fmt.Sprintf("ReadLimit %d, stream of envelopes with sizes %v (size = JSON + newline) delivered under plan %q: envelope #%d (size %d): %s", eff, sizes, planString(plan), i, sizes[i], msg),
-			in:   Input{Mode: "pconn", L: L, Sizes: append([]int(nil), sizes...), RPlan: planString(plan)},
+			msg:  fmt.Sprintf(map[bool]string{false: "", true: "TraceWriter set, "}[w.trace]+"ReadLimit %d, stream of envelopes with sizes %v (size = JSON + newline) delivered under plan %q: envelope #%d (size %d): %s", eff, sizes, planString(plan), i, sizes[i], msg),
+			in:   Input{Mode: "pconn", L: L, Sizes: append([]int(nil), sizes...), RPlan: planString(plan), Trace: w.trace},
 			cost: [4]int64{int64(len(sizes)), eff, int64(len(wire)), int64(len(plan))}}
 	}
 	func() {
@@ -230,7 +247,7 @@ func (w *worker) check(L int64, sizes []int, its []*pconn.Item, wire []byte, pla
 				res = mk(i, "panic", fmt.Sprint(p))
 			}
 		}()
-		rx := lime.NewTCPTransportFromConn(w.rc, &lime.TCPConfig{ReadLimit: L}, true)
+		rx := lime.NewTCPTransportFromConn(w.rc, tcpConfig(L, w.trace), true)
 		for ; i < len(its); i++ {
 			w.rc.Mark()
 			env, err := pconn.Receive(bg, rx)
@@ -451,6 +468,14 @@ func runStream(w *worker, L int64, sizes []int, b bounds) {
 	}
 	one(per, "", &nFixed, true)
 	one(perStall, "", &nFixed, true)
+	// the same stream with a TraceWriter configured (the limit applies to what is read, traced or not)
+	w.trace = true
+	one(nil, "trace-coalesced", &nFixed, true)
+	one(per, "trace-per-envelope", &nFixed, true)
+	if int(L)+1 < n {
+		one(chunkPlan(n, int(L)+1), "trace-chunk", &nFixed, true)
+	}
+	w.trace = false
 	// the JSON text and the newline of each envelope in separate reads
 	var jn pconn.Plan
 	for _, s := range sizes {
@@ -684,7 +709,7 @@ func replay(in Input) {
 		for i, s := range in.Sizes {
 			its[i] = item(s)
 		}
-		w := &worker{rc: pconn.New(nil, nil, nil)}
+		w := &worker{rc: pconn.New(nil, nil, nil), trace: in.Trace}
 		agg.add(w.check(in.L, in.Sizes, its, pconn.Concat(its), plan))
 	case "listener", "dial":
 		f, err := native(in.Mode, in.L, in.Sizes)
@@ -704,7 +729,7 @@ func main() {
 		"SIZE of an envelope = bytes of its wire encoding = JSON text + the trailing newline the encoder writes. " +
 		"Streams: every sequence of 1..3 (thorough: 1..4) well-formed envelopes with sizes from {tiny(16), L/2, L-1, L, L+1, L+200, 2L-1, 2L, 2L+1, 3L, 10L}, every order, " +
 		"except that an envelope > 2L (certainly refused; behaviour afterwards unspecified) only occurs last. " +
-		"Delivery plans per stream: everything coalesced; one envelope per read (plain / a stall before each read); JSON text and newline in separate reads; " +
+		"Delivery plans per stream: everything coalesced; one envelope per read (plain / a stall before each read); coalesced, one per read and L+1-byte reads again with TCPConfig.TraceWriter set; JSON text and newline in separate reads; " +
 		"fixed-size reads of 1,2,7,L-1,L,L+1,2L,2L+1,511,512,513 bytes (1-byte reads up to coverage.one_byte_max bytes); every split into 2 reads at every byte boundary for streams up to coverage.split2_max bytes; " +
 		"every split into 3 reads at every pair of boundaries for streams up to coverage.split3_max bytes, longer streams: 1 and 2 cut points from the stated grid (within 1 byte of every envelope boundary, boundary+-L, multiple of L, multiple of 512). " +
 		"Thorough: default limit (8 MiB) with 1 MiB / 8 MiB / 17 MiB envelopes. Native sub-check of the accept/reject clauses over real loopback sockets (listener.Accept and DialTcp). " +
